@@ -24,6 +24,12 @@ def build_inputs(c, t, rng):
         inputs.append(({"route": r.route, "el": "none", "kind": "valid"}, r.bytes()))
         for kind, el, raw in reqgen.mutations(r, rng, per):
             inputs.append(({"route": r.route, "el": el, "kind": kind}, raw))
+    seen_routes = set()
+    for r in valid:
+        if r.route not in seen_routes and r.route in ("static", "static-range", "static-multirange", "static-preflight", "form-urlencoded", "form-multipart", "static-origin"):
+            seen_routes.add(r.route)
+            for kind, el, raw in reqgen.header_value_truncations(r):
+                inputs.append(({"route": r.route, "el": el, "kind": kind}, raw))
     for kind, el, raw in reqgen.bombs(valid):
         inputs.append(({"route": "bomb", "el": kind.split(":")[0], "kind": kind, "always_b": True}, raw))
     # the same bombs for a server started with a larger (documented, configurable) request buffer
@@ -192,7 +198,7 @@ def engine_b(c, t, pick, lane, concurrent, args=None, ip="127.0.0.1"):
                     return
                 results.pop()
         for label, raw, data, end, s in results:
-            judge_b(c, label, raw, data, end, s, lane, threads, check_process=False)
+            judge_b(c, label, raw, data, end, s, lane, threads, check_process=False, sequential=not concurrent)
         if concurrent and srv is not None:
             if not srv.alive():
                 c.violation("C04:process-exited:binary:concurrent", "server process exited during the concurrent campaign: %s" % srv.crash_lines()[:3], {"lane": lane})
@@ -284,7 +290,7 @@ def log_sig(lines):
     return "no-log"
 
 
-def judge_b(c, label, raw, data, end, s, lane, threads, check_process=True):
+def judge_b(c, label, raw, data, end, s, lane, threads, check_process=True, sequential=False):
     import base64
     c.ev()
     c.cls(label["route"], label["el"], size_class(len(raw)), "app", lane, "B")
@@ -303,7 +309,7 @@ def judge_b(c, label, raw, data, end, s, lane, threads, check_process=True):
         c.count("inconclusive_reset_on_oversized_input")
         return
     if not data:
-        if check_process:
+        if check_process or sequential:
             c.violation("C04:no-response:binary:%s" % label["el"], "connection ended (%s) without any response byte for input %r..." % (end, raw[:60]), rp)
         else:
             c.count("empty_responses_in_concurrent_mode")
